@@ -17,6 +17,7 @@ fn main() {
         "server" => drivers::server::run(&args),
         "idmath" => drivers::idmath::run(&args),
         "rt" => drivers::rt::run(&args),
+        "mostrecent" => drivers::mostrecent::run(&args),
         "idmath-one" => drivers::idmath::run_one(&args),
         other => {
             eprintln!("unknown driver {other}");
